@@ -119,12 +119,12 @@ var constantTime = map[string]bool{"crypto/subtle.ConstantTimeCompare": true, "c
 
 // functions known to write through an argument: index of destination -> indices of sources (-1 = all other args)
 var outParams = map[string][2]int{
-	"encoding/json.Unmarshal":                   {1, 0},
-	"encoding/hex.Decode":                       {0, 1},
-	"io.ReadFull":                               {1, 0},
-	"(encoding/binary.bigEndian).PutUint64":     {0, 1},
-	"(encoding/binary.bigEndian).PutUint32":     {0, 1},
-	"(encoding/binary.littleEndian).PutUint64":  {0, 1},
+	"encoding/json.Unmarshal":                  {1, 0},
+	"encoding/hex.Decode":                      {0, 1},
+	"io.ReadFull":                              {1, 0},
+	"(encoding/binary.bigEndian).PutUint64":    {0, 1},
+	"(encoding/binary.bigEndian).PutUint32":    {0, 1},
+	"(encoding/binary.littleEndian).PutUint64": {0, 1},
 }
 
 func calleeName(c *ssa.CallCommon) string {
